@@ -25,7 +25,7 @@ extern "C" void h_disc_queue() {
     future<int> pops[MAXN];
     {
         Q q;
-        vf_protect(&q, &q.mx());
+        vf_protect(&q, sizeof(q), &q.mx());
         int np = 0;
         for (int i = 0; i < nops; i++) {
             switch (vf_choice(5)) {
@@ -48,7 +48,7 @@ extern "C" void h_disc_lqueue() {
     future<int> pops[MAXN]; future<void> pushes[MAXN];
     {
         LQ q(limit);
-        vf_protect(&q, &q.mx());
+        vf_protect(&q, sizeof(q), &q.mx());
         int np = 0, nu = 0;
         for (int i = 0; i < nops; i++) {
             switch (vf_choice(6)) {
@@ -72,7 +72,7 @@ extern "C" void h_disc_sched() {
     int ids[3];
     {
         SCH sch;
-        vf_protect(&sch, &sch.mx());
+        vf_protect(&sch, sizeof(sch), &sch.mx());
         int ns = 0;
         for (int i = 0; i < nops; i++) {
             int k = vf_choice(4);
@@ -98,7 +98,7 @@ extern "C" void h_disc_pub() {
     {
         publisher<long> pub(2, 1);
         auto q = pub.get_queue();
-        vf_protect(q.get(), &static_cast<PQ *>(q.get())->mx());
+        vf_protect(q.get(), sizeof(PQ), &static_cast<PQ *>(q.get())->mx());
         {
             subscriber<long> a(pub);
             std::optional<subscriber<long>> b;
